@@ -106,6 +106,7 @@ Inv_C09(e) ==
             /\ (e.err.nil => e.out # <<>>)
             /\ (~e.err.nil => e.out = <<>> /\ e.err.entlen)
       [] e.op = "Read" -> pc = "reading"                      \* a rejected count consumes nothing
+      [] e.op = "Crash" -> FALSE                              \* the process died inside the library on an extreme size
       [] e.op = "NewMnemonic" ->
             IF ~BigOK(e.n) THEN e.out = <<>> /\ e.err.wordlen /\ delivered = <<>>
             ELSE (ReadFullOK => e.err.nil /\ e.out # <<>>) /\ (e.err.nil => e.out # <<>>) /\ (~e.err.nil => e.out = <<>>)
@@ -144,7 +145,9 @@ KF_C04(e)  == e.op = "ToSeed" /\ ~SeedOK(e) /\ SeedF3(e)
 InGroup(e) == Has(e, "group") /\ e.group = grp.id
 FormOf(e) == IF e.op = "Check" THEN <<NFKD(e.in), e.lang>> ELSE <<NFKD(e.m), NFKD(e.p)>>
 GroupInfra(e) == Has(e, "group") /\ InGroup(e) /\ FormOf(e) # grp.form
-Inv_C10(e) == e.op = "Check" /\ InGroup(e) /\ FormOf(e) = grp.form => (e.err.nil <=> grp.res)
+Inv_C10(e) == /\ (e.op = "Check" /\ InGroup(e) /\ FormOf(e) = grp.form => (e.err.nil <=> grp.res))
+              \* "in particular every valid mnemonic is accepted in each of these spellings"
+              /\ (e.op = "Check" /\ Has(e, "group") /\ IsSupported(e.lang) /\ Canonical(e.in, e.lang) => e.err.nil)
 F3Group(e) == HasLongRun(e.m, e.p)
 Inv_C11(e) == e.op = "ToSeed" /\ InGroup(e) /\ FormOf(e) = grp.form =>
                   (e.seed = grp.res \/ (F3Group(e) /\ e.seed = StreamSafeSeed(e.m, e.p)))
@@ -249,7 +252,7 @@ ProtocolBreak(e) ==
     (IF e.op \in {"Check", "Swap", "NewMnemonicCall", "ByEntropy", "ToSeed", "String"} /\ ~Idle THEN {<<l, "call while another is in flight">>} ELSE {})
     \cup (IF e.op = "NewMnemonic" /\ pc = "idle" THEN {<<l, "return without call">>} ELSE {})
 
-IsCall(e) == e.op \in {"RaceReport", "ByEntropy", "Check", "ToSeed", "String", "NewMnemonic", "Sweep", "Gen", "ListSource", "Swap", "Read", "OSRandom",
+IsCall(e) == e.op \in {"RaceReport", "Crash", "ByEntropy", "Check", "ToSeed", "String", "NewMnemonic", "Sweep", "Gen", "ListSource", "Swap", "Read", "OSRandom",
                        "Recheck", "Buf", "CheckHuge", "ToSeedHuge"}
 
 Step ==
